@@ -138,16 +138,17 @@ type World struct {
 	advance func(time.Duration)
 	SimT    int64
 
-	Log     []Event
-	CurOp   int
-	Execs   []int // executions started per function
-	Open    []int // functions whose body is executing (stack)
-	Tokens  []TokInfo
-	errs    map[[2]int]*InjErr
-	faults  map[int][]Fault
-	fnVals  []interface{}
-	fnOK    []bool
-	catBind map[int]*Func
+	Log       []Event
+	CurOp     int
+	Execs     []int // executions started per function
+	Open      []int // functions whose body is executing (stack)
+	Tokens    []TokInfo
+	errs      map[[2]int]*InjErr
+	faults    map[int][]Fault
+	fnVals    []interface{}
+	fnOK      []bool
+	catBind   map[int]*Func
+	lastPInfo *dig.ProvideInfo // Info struct filled by the latest accepted Provide (see Func.ReuseInfo)
 
 	FaultsFired [4]int
 	HomeOf      map[int]int               // fn id -> index of the scope it was provided to (set by the runner on accepted Provide)
